@@ -45,3 +45,9 @@ CORPUS += [
       '        if cls._hdr is None:\n            cls._hdr = bytearray(40)\n            cls._hdr[20:28] = device_id.to_bytes(8, "little")\n        cls._hdr[4:6] = length.to_bytes(2, "little")\n        header = b"\\x5A\\x5A"  # Start of packet\n        header += b"\\x01\\x11"  # Message type\n        header += bytes(cls._hdr[4:6])  # Packet size',
       also=[(L, 'class _Packet:\n    """Class to encode/decode command frames to packets."""\n', 'class _Packet:\n    """Class to encode/decode command frames to packets."""\n\n    _hdr = None\n')]),
 ]
+# round 6: the other header reads feed the same interval evaluation; asserts of implied facts are proven, others are paths
+CORPUS += [
+    M("length-field-three-bytes", L, '            length = int.from_bytes(packet[4:6], "little")', '            length = int.from_bytes(packet[4:7], "little")'),
+    M("assert-on-command-length", L, "        # Compute total length\n", "        assert len(command) < 200\n"),
+    M("n-assert-block-multiple", L, "        # Compute total length\n", "        assert len(encrypted_payload) > 0 and len(encrypted_payload) % 16 == 0\n", "S"),
+]
